@@ -420,6 +420,60 @@ def rule_semantics(P) -> RuleResult:
                 res.fail(fi.fq, f'semantics:value:{name}', f'the {name} literal stands for {want_s}; the action gives `{shown[:100]}`', loc(fi))
             else:
                 res.ok({'action': name, 'value': want_s})
+    # the structural actions: ORDER BY direction, `*`, lists, and the default action that builds the node of a typed rule
+    from ..symex import SList as _SL, gname as _gn
+    SEM = _S('SEMANTICS')
+
+    def run(name, env):
+        fi = sem.methods.get(name)
+        if fi is None:
+            raise AnalysisError(f'anchor vanished: BQLSemantics.{name}')
+        ps = [p_ for p_ in _E(P).paths(fi, {'self': SEM, **{fi.params[i + 1]: v for i, v in enumerate(env)}})]
+        return fi, ps
+    for written, want_member in ((None, 'ASC'), ('ASC', 'ASC'), ('DESC', 'DESC')):
+        fi, ps = run('ordering', [written])
+        for p_ in ps:
+            v = p_.value
+            good = p_.outcome == 'return' and not p_.decisions and (
+                (isinstance(v, _T) and v.op == 'item' and _gn(v.args[0]).split('.')[-1] == 'Ordering' and v.args[1] == want_member) or
+                (isinstance(v, _T) and v.op in ('attr', 'global') and _sh(v).replace("global('", '').replace("')", '').split('.')[-2:] == ['Ordering', want_member]))
+            if good:
+                res.ok({'action': 'ordering', 'written': written or '(nothing)', 'direction': want_member})
+            else:
+                res.fail(fi.fq, 'semantics:ordering', f'ORDER BY x {written or ""}'.rstrip() + f' sorts {"ascending" if want_member == "ASC" else "descending"} '
+                         f'(Ordering.{want_member}); the action gives `{_sh(v)[:80]}`', loc(fi))
+    fi, ps = run('asterisk', ['*'])
+    for p_ in ps:
+        v = p_.value
+        if p_.outcome == 'return' and isinstance(v, _T) and v.op == 'call' and str(v.args[0]).split('.')[-1] == 'Asterisk' and not v.args[1] and not v.args[2]:
+            res.ok({'action': 'asterisk', 'node': 'Asterisk()'})
+        else:
+            res.fail(fi.fq, 'semantics:asterisk', f'`*` stands for an Asterisk node; the action gives `{_sh(v)[:80]}`', loc(fi))
+    CL = _S('PARSED_ELEMENTS')
+    fi, ps = run('list', [CL])
+    for p_ in ps:
+        v = p_.value
+        if p_.outcome == 'return' and not p_.decisions and (v == CL or (isinstance(v, _T) and v.op == 'call' and v.args[0] in ('list', 'tuple') and v.args[1] == (CL,))):
+            res.ok({'action': 'list', 'value': 'all parsed elements, in order'})
+        else:
+            res.fail(fi.fq, 'semantics:list', f'a parenthesised list stands for the list of all its elements in order; the action gives `{_sh(v)[:80]}`', loc(fi))
+    V, F, N = _S('RULE_VALUE'), _S('FIELD_VALUE_1'), _S('FIELD_VALUE_2')
+    fi, ps = run('_default', [V, None])
+    for p_ in ps:
+        if p_.outcome == 'return' and p_.value == V and not p_.decisions:
+            res.ok({'action': '_default', 'untyped_rule': 'the parsed value itself'})
+        else:
+            res.fail(fi.fq, 'semantics:default', f'the value of a rule without a node type is the parsed value itself; the action gives `{_sh(p_.value)[:80]}`', loc(fi))
+    fi, ps = run('_default', [_SL([('from_', F), ('name', N)], kind='dict'), 'Table'])
+    for p_ in ps:
+        v = p_.value
+        good = p_.outcome == 'return' and not p_.decisions and isinstance(v, _T) and v.op == 'call' and str(v.args[0]).split('.')[-1] == 'Table' and \
+            not v.args[1] and sorted(v.args[2]) == [('from', F), ('name', N)]
+        if good:
+            res.ok({'action': '_default', 'typed_rule': 'the node class of that name, one keyword per captured field, trailing underscores dropped'})
+        else:
+            res.fail(fi.fq, 'semantics:default', f'a rule typed `Table` capturing from_ and name builds ast.Table(from=..., name=...): every captured '
+                     f'field under its own name (the underscore TatSu appends to reserved names dropped); the action gives `{_sh(v)[:100]}`', loc(fi))
     return res
 
 
